@@ -382,6 +382,9 @@ Definition csetseq (k0 n v : Z) : list ccop := map (fun k => CC (CSet k v)) (key
 Definition xdelseq (k0 n : Z) : list xxop := map (fun k => XX (XDel k)) (keyseq k0 n).
 Definition xsetseq (k0 n v d : Z) : list xxop := map (fun k => XX (XSet k v d)) (keyseq k0 n).
 
+(* n copies of a block of operations / observations (kind stress: every goroutine repeats its script) *)
+Definition repn {A : Type} (n : Z) (l : list A) : list A := concat (repeat l (Z.to_nat n)).
+
 (* ---------- cases ---------- *)
 Inductive case :=
 | KWindow (size : Z) (iv t0 : Z) (ig : bool) (ops : list wop) (seen : list (list (list Z)))
